@@ -147,18 +147,12 @@ Proof.
   intros ->. congruence.
 Qed.
 
-(* the three gates as coded today: none of them lets a '$' through *)
+(* the byte-set gates as coded today: neither lets a '$' through *)
 Lemma lit_pattern_no_dollar p : forallb (in_set lit_pattern_set) p = true -> no_dollar p = true.
 Proof. apply set_no_dollar. vm_compute. reflexivity. Qed.
 
 Lemma simple_mod_no_dollar p : forallb (in_set simple_mod_set) p = true -> no_dollar p = true.
 Proof. apply set_no_dollar. vm_compute. reflexivity. Qed.
-
-Lemma exact_no_dollar p : existsb (in_set match_special_set) p = false -> no_dollar p = true.
-Proof.
-  induction p as [|c p IH]; [reflexivity|]. cbn [existsb]. intros H. apply orb_false_iff in H as [Hc Hp].
-  apply no_dollar_cons. split; [|apply IH; exact Hp]. intros ->. vm_compute in Hc. discriminate.
-Qed.
 
 (* MatchMatch's "exact" means: none of the bytes Str_Match treats specially *)
 Lemma exact_plain p : existsb (in_set match_special_set) p = false -> forallb plain_byte p = true.
